@@ -16,7 +16,7 @@ def scenarios(ctx):
     quick = ctx.quick
     out = []
     Q = [{"r": 1}, {"f": 1}, {"k": 1}]
-    T = [{"r": 1, "f": 1}, {"k": 1, "f": 1}, {"r": 2}, {"p": 1}]
+    T = Q + [{"r": 1, "f": 1}, {"r": 2}, {"p": 1}]
     B = Q if quick else T  # the deep vectors, on the central scenarios only (a pair of deviations costs ~10^5 group executions per scenario)
     B2 = Q if quick else Q + [{"p": 1}, {"r": 2}]
     e_all = gc.errs(membership=True)
@@ -36,7 +36,7 @@ def scenarios(ctx):
     out.append(("single", gc.two_members(members=[dict(topics=["t"], assignors=["range"])], **base), B2))
     out.append(("three", gc.two_members(topics={"t": 3}, members=[dict(topics=["t"], assignors=["roundrobin"]),
                                                                  dict(topics=["t"], assignors=["roundrobin"], start=0.6),
-                                                                 dict(topics=["t"], assignors=["roundrobin"], start=1.2)], **base), Q if quick else [{"r": 1}, {"f": 1}, {"k": 1}, {"k": 1, "f": 1}]))
+                                                                 dict(topics=["t"], assignors=["roundrobin"], start=1.2)], **base), Q))
     out.append(("app-eager", gc.two_members(baseline="app", **base), B2))
     out.append(("hb-rebalance-in-completing", gc.two_members(hb_completing=27, **base), Q))
     out.append(("subscription-change", gc.two_members(topics={"t": 2, "u": 1}, members=[dict(topics=["t"], assignors=["range"], resubscribe=[1.5, ["t", "u"]]),
